@@ -363,6 +363,15 @@ class ResetInterp:
                     if isinstance(b, ast.Raise):
                         cx.raises.append((b.lineno, src(b.exc)[:60] if b.exc else '', f.name))
                 self._facts(s.test, cx)
+                t_ = s.test
+                if isinstance(t_, ast.Compare) and len(t_.ops) == 1 and \
+                        isinstance(t_.ops[0], ast.NotEq):
+                    l_, r_ = src(t_.left), src(t_.comparators[0])
+                    for a_, b_ in ((l_, r_), (r_, l_)):
+                        if a_.startswith('len(') and b_ == f'len(set({a_[4:-1]}))':
+                            v_ = cx.env.get(a_[4:-1])
+                            if isinstance(v_, tuple) and v_[0] == 'splits':
+                                cx.env[a_[4:-1]] = ('splits', v_[1], v_[2], True)
                 return None
             test, negated = s.test, False
             while isinstance(test, ast.UnaryOp) and isinstance(test.op, ast.Not):
@@ -500,6 +509,16 @@ class ResetInterp:
             endpoint = any(k.arg == 'endpoint' and src(k.value) == 'True' for k in val.keywords)
             if lo is not None and hi is not None:
                 cx.env[tg.id] = ('aff', cx.newsym(tg.id, lo, hi if endpoint else hi - 1))
+                return None
+        if isinstance(val, ast.Call) and src(val.func) in ('np.linspace', 'numpy.linspace') and \
+                isinstance(tg, ast.Name) and len(val.args) >= 2:
+            # integer split points from A to B (both included); strictly increasing once the
+            # function has rejected repeated values
+            kwv = {k.arg: src(k.value) for k in val.keywords}
+            a_, b_ = self.aff(val.args[0], cx), self.aff(val.args[1], cx)
+            if a_ is not None and b_ is not None and kwv.get('dtype') == 'int' and \
+                    kwv.get('endpoint', 'True') == 'True':
+                cx.env[tg.id] = ('splits', a_, b_, False)
                 return None
         lst = self.poslist(val, cx)
         if lst is not None and isinstance(tg, ast.Name) and \
@@ -694,6 +713,8 @@ class ResetInterp:
                     handled = True
         if handled:
             return
+        if self._split_loop(s, cx, f):
+            return
         # loops with draws inside (room passages, crossings): record writes with unknown region
         for n in ast.walk(s):
             if isinstance(n, ast.Assign):
@@ -706,6 +727,63 @@ class ResetInterp:
         for n in ast.walk(s):
             if isinstance(n, ast.Name) and isinstance(n.ctx, ast.Store):
                 cx.env[n.id] = None
+
+    def _split_loop(self, s: ast.For, cx: Ctx, f: Func) -> bool:
+        """`for v in S[1:-1]` and `for a, b in pairwise(S)` over strictly increasing integer
+        split points S (from A to B): the loop variables become symbols with the bounds every
+        iteration satisfies (A < v < B; A <= a < b <= B), and the body is interpreted once for
+        all iterations.  Only used when the body stores nothing but Floor cells (a write in a
+        loop stands for several writes; the inventory rules count the others one by one)."""
+        it, tgt = s.iter, s.target
+
+        def splits(e):
+            v = cx.env.get(e.id) if isinstance(e, ast.Name) else None
+            return v if isinstance(v, tuple) and v[0] == 'splits' and v[3] else None
+        binds = None
+        if isinstance(it, ast.Subscript) and isinstance(it.slice, ast.Slice) and \
+                src(it.slice) == '1:-1' and isinstance(tgt, ast.Name):
+            v = splits(it.value)
+            if v is not None:
+                binds = [(tgt.id, v[1] + 1, v[2] - 1)]
+        elif isinstance(it, ast.Call) and src(it.func) in ('mitt.pairwise', 'pairwise',
+                                                           'itt.pairwise', 'more_itertools.pairwise') \
+                and len(it.args) == 1 and isinstance(tgt, ast.Tuple) and len(tgt.elts) == 2 \
+                and all(isinstance(t_, ast.Name) for t_ in tgt.elts):
+            v = splits(it.args[0])
+            if v is not None:
+                binds = [(tgt.elts[0].id, v[1], v[2] - 1), (tgt.elts[1].id, None, v[2])]
+        if binds is None:
+            return False
+        for n in ast.walk(s):
+            if isinstance(n, ast.Assign):
+                t = n.targets[0]
+                if isinstance(t, ast.Subscript) and src(t.value) in ('grid', 'state.grid') and \
+                        self._cls_of(n.value, cx)[0] != 'Floor':
+                    return False
+            if isinstance(n, ast.Call) and src(n.func).startswith('draw_'):
+                return False
+            if isinstance(n, (ast.If, ast.While, ast.Try, ast.Return, ast.Break, ast.Continue)):
+                return False
+        first = None
+        for name, lo, hi in binds:
+            if lo is None:
+                lo = first + 1          # the second of a consecutive pair lies after the first
+            sym = cx.newsym(name, lo, hi)
+            if first is None:
+                first = sym
+            cx.env[name] = ('aff', sym)
+        for b in s.body:
+            if isinstance(b, ast.For):
+                if not self._split_loop(b, cx, f):
+                    self.loop(b, cx, f)
+            elif isinstance(b, ast.Assign) and len(b.targets) == 1:
+                self.assign(b.targets[0], b.value, b, cx, f, [])
+            elif isinstance(b, ast.AnnAssign) and b.value is not None:
+                self.assign(b.target, b.value, b, cx, f, [])
+        for n in ast.walk(s):
+            if isinstance(n, ast.Name) and isinstance(n.ctx, ast.Store):
+                cx.env[n.id] = None
+        return True
 
     def _range_bounds(self, r: ast.AST, cx: Ctx):
         if isinstance(r, ast.Call) and src(r.func) == 'range' and 1 <= len(r.args) <= 3:
